@@ -56,6 +56,12 @@ def run(ctx):
         for kind in _zinc.kinds_for(version):
             _kind(ctx, entries, kind, version)
     J.verbatim_payload(ctx, 'C02.D3', entries, fn)
+    J.time_fields_exact(ctx, 'C02.D5', entries, fn)
+    # a pre-decoded document can be parsed again: the reader consumes private copies only (clause shared with C05.D3)
+    from . import c05
+    c05._freshness(ctx, rule='C02.D6')
+    from . import c16
+    c16.mapping_overrides(ctx, ctx.model, rule='C02.D6')
     _assembly(ctx)
     J.dumps_call(ctx, 'C02.D6')
     J.loads_calls(ctx, 'C02.D6')
